@@ -66,6 +66,7 @@ func main() {
 		c.decodeSide(c.accepted("evolution", "evomix", "empty", "recursive", "maps", "lists", "scalars", "byvalue", "ids", "random", "defaults", "wide"), n, false)
 	case "C04":
 		c.encodeSide(all, n, true)
+		c.bigLenProbe()
 	case "C05":
 		us := c.accepted("evolution", "evomix", "empty", "recursive", "maps", "lists", "scalars", "byvalue", "ids", "random", "nocopy")
 		c.malformed(us, (n+2)/3)
